@@ -29,7 +29,11 @@ POOL = {'V': ['volt', 'mV', 'uV', 'nV', 'pV', 'dmV'],      # nV -> uV -> mV -> v
         # dimensionless RATIO units whose names do not cancel: mV / volt, litre / metre^3, mg / kilogram
         '1': ['dimensionless', 'percent', 'mV_per_V', 'L_per_m3', 'ppm'], 'U': ['ub', 'kub'],
         'A': ['m2', 'half_m2', 'quarter_cm2'],     # user units combining multiplier, prefix and exponent
-        'H': ['rt_s', 'rt_ms'], 'Q': ['s15', 'ms15'], 'N': ['prt_s', 'prt_ms']}     # half-integer exponents
+        'H': ['rt_s', 'rt_ms'], 'Q': ['s15', 'ms15'], 'N': ['prt_s', 'prt_ms'],     # half-integer exponents
+        # several <unit> children, ONE of them prefixed: prefixed child first (mV_per_s, uA_per_m2, mM) and, as a control
+        # with the same meaning, last (per_s_mV, per_m2_uA, per_L_mmol); named and integer prefixes
+        'R': ['V_per_s', 'mV_per_s', 'per_s_mV'], 'J': ['A_per_m2', 'uA_per_m2', 'per_m2_uA'],
+        'C': ['mol_per_L', 'mM', 'per_L_mmol']}
 # two user unit names whose MEANING changes from document to document (flavour 0, 1, 2)
 POOL['V'].append('uv_x')
 POOL['T'].append('ut_x')
@@ -57,10 +61,10 @@ DIM_OF.update({('g_' + q): 'M' for q in ['yotta', 'zetta', 'exa', 'peta', 'tera'
 SCALE = {'volt': Fraction(1), 'mV': Fraction(1, 1000), 'uV': Fraction(1, 10 ** 6), 'second': Fraction(1),
          'ms': Fraction(1, 1000), 'dimensionless': Fraction(1), 'percent': Fraction(1, 100), 'ub': Fraction(1),
          'kub': Fraction(1000), 'ampere': Fraction(1), 'kilogram': Fraction(1), 'metre': Fraction(1),
-         'gram': Fraction(1, 1000), 'litre': Fraction(1, 1000),
+         'gram': Fraction(1, 1000), 'litre': Fraction(1, 1000), 'mole': Fraction(1),
          # CellML 5.2.7: multiplier * (prefix * unit) ** exponent
          'm2': Fraction(1), 'half_m2': Fraction(1, 2), 'quarter_cm2': Fraction(1, 4) * Fraction(1, 100) ** 2}
-BUILTIN_USED = ['volt', 'second', 'dimensionless', 'ampere', 'kilogram', 'metre', 'gram', 'litre']
+BUILTIN_USED = ['volt', 'second', 'dimensionless', 'ampere', 'kilogram', 'metre', 'gram', 'litre', 'mole']
 
 
 def _child(units, prefix=None, exponent=None, multiplier=None, offset=None):
@@ -83,6 +87,15 @@ def unit_defs(flavour=0, mass=()):
             _def('nV', [_child('uV', prefix='nano', multiplier='1e6')]), _def('pV', [_child('nV', multiplier='0.001')]),
             _def('mV_ms', [_child('mV'), _child('ms')]), _def('dmV', [_child('mV_ms'), _child('ms', exponent='-1')]),
             _def('mg', [_child('gram', prefix='milli')]),
+            _def('V_per_s', [_child('volt'), _child('second', exponent='-1')]),
+            _def('mV_per_s', [_child('volt', prefix='milli'), _child('second', exponent='-1')]),
+            _def('per_s_mV', [_child('second', exponent='-1'), _child('volt', prefix='milli')]),
+            _def('A_per_m2', [_child('ampere'), _child('metre', exponent='-2')]),
+            _def('uA_per_m2', [_child('ampere', prefix='-6'), _child('metre', exponent='-2')]),
+            _def('per_m2_uA', [_child('metre', exponent='-2'), _child('ampere', prefix='-6')]),
+            _def('mol_per_L', [_child('mole'), _child('litre', exponent='-1')]),
+            _def('mM', [_child('mole', prefix='milli'), _child('litre', exponent='-1')]),
+            _def('per_L_mmol', [_child('litre', exponent='-1'), _child('mole', prefix='milli')]),
             _def('mV_per_V', [_child('mV'), _child('volt', exponent='-1')]),
             _def('L_per_m3', [_child('litre'), _child('metre', exponent='-3')]),
             _def('ppm', [_child('mg'), _child('kilogram', exponent='-1')]),
@@ -752,7 +765,7 @@ class Gen(object):
             return ['times'] + args
         if k < 0.7:
             if dim == '1':
-                d2 = r.choice(['V', 'T', 'U', '1', 'A', 'H', 'Q', 'N', 'M'])
+                d2 = r.choice(['V', 'T', 'U', '1', 'A', 'H', 'Q', 'N', 'M', 'R', 'J', 'C'])
                 return ['divide', self.expr(c, d2, avail, depth - 1), self.pos(c, d2, avail)]
             return ['divide', self.expr(c, dim, avail, depth - 1), self.pos(c, '1', avail)]
         if k < 0.8 and dim == '1':
@@ -849,7 +862,7 @@ class Gen(object):
         for c in order:
             nown = r.randint(1, 4)
             for j in range(nown):
-                dim = r.choice(['V', 'V', 'T', '1', 'U', 'A', 'H', 'Q', 'N', 'M'])
+                dim = r.choice(['V', 'V', 'T', '1', 'U', 'A', 'H', 'Q', 'N', 'M', 'R', 'J', 'C', 'R'])
                 units = r.choice(self.pool[dim])
                 kind = r.choice(['state', 'const', 'comp', 'comp'])
                 base = r.choice(['v', 'x', 'y', 'g', 'k', 'a', 'b', 'm', 'h'])
